@@ -603,10 +603,10 @@ theorem inList_ok (C : Cx) (ng : Bool) {t : Ty} {sx : Sql} {v : Option Scalar}
 /-- what is known about the monad of an expression of the fragment -/
 def Good (C : Cx) (e : Expr) (m : Monad) : Prop :=
   MonadOK C e m ∧
-    (if valueSorted e then ∃ c t n s, m = .val c t n s ∧ (c = .attr → isAttr e = true) else m.isCond = true)
+    (if valueSorted e then ∃ c t n s, m = .val c t n s ∧ (c = .attr ↔ isAttr e = true) else m.isCond = true)
 
 theorem Good.val {C : Cx} {e : Expr} {m : Monad} (h : Good C e m) (hs : valueSorted e = true) :
-    ∃ c t n s, m = .val c t n s ∧ (c = .attr → isAttr e = true) ∧ ValOK C e t n s := by
+    ∃ c t n s, m = .val c t n s ∧ (c = .attr ↔ isAttr e = true) ∧ ValOK C e t n s := by
   obtain ⟨h1, h2⟩ := h
   simp only [hs, if_true] at h2
   obtain ⟨c, t, n, s, rfl, hc⟩ := h2
@@ -620,6 +620,13 @@ theorem Good.condOf {C : Cx} {e : Expr} {m : Monad} (h : Good C e m) : CondOK C 
     · exact hs
     · simp only [hs] at h2; subst hm; simp [Monad.isCond] at h2
   · intro hm; subst hm; simp [MonadOK] at h1
+
+theorem MonadOK_of_isCond {C : Cx} {e : Expr} {m : Monad} (h : m.isCond = true) : MonadOK C e m = CondOK C e m.getsql := by
+  cases m <;> simp_all [Monad.isCond, MonadOK]
+
+theorem negate_val_shape (d : Dialect) (c : MCls) (t : Ty) (n : Bool) (s : Sql) : (negate d (.val c t n s)).isCond = true := by
+  cases t <;> simp [negate, Monad.isCond]
+  split <;> simp [Monad.isCond]
 
 theorem trTy_of_ok {sch : Schema} {d : Dialect} {e : Expr} {m : Monad} (h : tr sch d e = .ok m) : trTy sch d e = m.ty := by
   simp [trTy, h]
